@@ -27,6 +27,7 @@ import (
 	"github.com/google/uuid"
 
 	"github.com/provenance-io/provenance/app"
+	markerkeeper "github.com/provenance-io/provenance/x/marker/keeper"
 	markertypes "github.com/provenance-io/provenance/x/marker/types"
 	metadatakeeper "github.com/provenance-io/provenance/x/metadata/keeper"
 	mdtypes "github.com/provenance-io/provenance/x/metadata/types"
@@ -62,6 +63,8 @@ type vownerEnv struct {
 	spec  mdtypes.MetadataAddress
 	md    mdtypes.MsgServer
 	bank  banktypes.MsgServer
+	mk    markertypes.MsgServer
+	mdnm  map[string]string // marker name -> its denom
 }
 
 var (
@@ -73,7 +76,7 @@ func vownerSetup(t *testing.T) *vownerEnv {
 	vownerOnce.Do(func() {
 		a, ctx := NewApp(t)
 		ctx = ctx.WithBlockTime(time.Unix(1_700_000_000, 0))
-		e := &vownerEnv{t: t, app: a, addr: map[string]sdk.AccAddress{}, name: map[string]string{}, scope: map[string]mdtypes.MetadataAddress{}}
+		e := &vownerEnv{t: t, app: a, addr: map[string]sdk.AccAddress{}, name: map[string]string{}, scope: map[string]mdtypes.MetadataAddress{}, mdnm: map[string]string{}}
 		reg := func(n string, ad sdk.AccAddress) {
 			e.addr[n] = ad
 			e.name[ad.String()] = n
@@ -97,6 +100,7 @@ func vownerSetup(t *testing.T) *vownerEnv {
 		}{{"MR", "vownrestricted", markertypes.MarkerType_RestrictedCoin}, {"MU", "vownunrestricted", markertypes.MarkerType_Coin}} {
 			ad := markertypes.MustGetMarkerAddress(m.denom)
 			reg(m.n, ad)
+			e.mdnm[m.n] = m.denom
 			ma := markertypes.NewMarkerAccount(authtypes.NewBaseAccountWithAddress(ad), sdk.NewInt64Coin(m.denom, 0), nil,
 				nil, markertypes.StatusActive, m.typ, false, false, false, nil)
 			if err := a.MarkerKeeper.AddMarkerAccount(ctx, ma); err != nil {
@@ -115,6 +119,7 @@ func vownerSetup(t *testing.T) *vownerEnv {
 		e.base = ctx
 		e.md = metadatakeeper.NewMsgServerImpl(a.MetadataKeeper)
 		e.bank = bankkeeper.NewMsgServerImpl(a.BankKeeper)
+		e.mk = markerkeeper.NewMsgServerImpl(a.MarkerKeeper)
 		vownerE = e
 	})
 	vownerE.t = t
@@ -188,7 +193,7 @@ func vownerClass(err error) string {
 		return "err:novo"
 	case has("already has the proposed value owner"), has("already have the proposed value owner"):
 		return "err:same"
-	case has("scope not found"), has("no scopes found"), has("authorization not found"):
+	case has("scope not found"), has("no scopes found"), has("authorization not found"), has("marker not found"):
 		return "err:notfound"
 	case has("at least one"), has("invalid coins"), has("invalid from address"), has("invalid to address"), has("invalid scope owners"), has("invalid value owner address"),
 		has("invalid existing value owner address"), has("invalid proposed value owner address"):
@@ -424,6 +429,26 @@ func (e *vownerEnv) exec(op string) string {
 		from := e.bech(kvArg2(ws, "from"))
 		msg := &banktypes.MsgSend{FromAddress: from, ToAddress: e.bech(kvArg2(ws, "to")), Amount: coins}
 		return e.run(msg, []string{from}, func(ctx sdk.Context) error { _, err := e.bank.Send(ctx, msg); return err })
+	case "mwithdraw":
+		var coins sdk.Coins
+		for _, n := range vownerSplit(kvArg2(ws, "ids")) {
+			id, ok := e.scope[n]
+			if !ok {
+				return "bad-op"
+			}
+			coins = append(coins, id.Coin())
+		}
+		sort.Slice(coins, func(i, j int) bool { return coins[i].Denom < coins[j].Denom })
+		if len(coins) == 0 {
+			return "err:invalid" // not generated; the model rejects an empty list too
+		}
+		denom, ok := e.mdnm[kvArg2(ws, "marker")]
+		if !ok {
+			denom = "vownnosuchmarker"
+		}
+		admin := e.bech(kvArg2(ws, "admin"))
+		msg := &markertypes.MsgWithdrawRequest{Denom: denom, Administrator: admin, ToAddress: e.bech(kvArg2(ws, "to")), Amount: coins}
+		return e.run(msg, []string{admin}, func(ctx sdk.Context) error { _, err := e.mk.Withdraw(ctx, msg); return err })
 	case "grant":
 		granter, grantee := e.addr[kvArg2(ws, "granter")], e.addr[kvArg2(ws, "grantee")]
 		url, ok := vownerMTURL[kvArg2(ws, "mt")]
@@ -821,6 +846,15 @@ func driveVowner(t *testing.T, rng *RNG, n int, out *Out) {
 			if len(held) == 0 && k >= 30 && k < 75 && rng.Chance(70) {
 				k = 0 // nothing to move yet: write instead
 			}
+			markerHeld := false
+			for _, id := range held {
+				if contains(vownerMarkers, v.holder[id]) {
+					markerHeld = true
+				}
+			}
+			if k >= 71 && k < 75 && !markerHeld && rng.Chance(80) {
+				k = 65 // no marker holds a token: a bank send instead
+			}
 			switch {
 			case k < 30 || len(existing) == 0: // write scope
 				kind = "write"
@@ -941,6 +975,38 @@ func driveVowner(t *testing.T, rng *RNG, n int, out *Out) {
 				}
 				signers = e.signersFor(rng, out, pre, "delete", vownerUniq(need), "")
 				r = emit(fmt.Sprintf("delete id=%s signers=%s", id, signers))
+			case k >= 71 && k < 75: // marker MsgWithdraw of scope tokens a marker holds
+				kind = "mwithdraw"
+				mk := Pick(rng, []string{"MR", "MR", "MU"})
+				var ids []string
+				for _, id := range held {
+					if contains(vownerMarkers, v.holder[id]) && rng.Chance(70) {
+						mk = v.holder[id]
+					}
+				}
+				for _, id := range held {
+					if v.holder[id] == mk && (len(ids) == 0 || rng.Chance(50)) {
+						ids = append(ids, id)
+					}
+				}
+				if len(ids) == 0 {
+					ids = append(ids, Pick(rng, vownerIDs))
+				}
+				if rng.Chance(3) {
+					ids = append(ids, ids[0])
+				}
+				if rng.Chance(3) {
+					mk = Pick(rng, people)
+				}
+				admin := Pick(rng, people)
+				if w := e.whoHas(mk, markertypes.Access_Withdraw); len(w) > 0 && rng.Chance(75) {
+					admin = Pick(rng, w)
+				} else if contains(vownerMarkers, mk) && rng.Chance(65) {
+					admin = Pick(rng, []string{"A", "B", "C", "D", "E"})
+					pre(fmt.Sprintf("access marker=%s addr=%s perms=%s", mk, admin, Pick(rng, []string{"withdraw", "withdraw", "withdraw|deposit", "withdraw|deposit", "deposit"})))
+				}
+				signers = admin
+				r = emit(fmt.Sprintf("mwithdraw marker=%s admin=%s to=%s ids=%s", mk, admin, vownerPickTarget(rng, ""), JoinOr(ids, "|")))
 			case k < 75: // bank send of scope tokens
 				kind = "send"
 				from := Pick(rng, people)
@@ -1035,6 +1101,8 @@ func driveVowner(t *testing.T, rng *RNG, n int, out *Out) {
 						switch {
 						case kind == "send":
 							out.Count("route:own-send")
+						case kind == "mwithdraw":
+							out.Count("route:marker-msg-withdraw")
 						case contains(sg, b):
 							out.Count("route:" + kind + ":signature")
 						case contains(vownerMarkers, b):
